@@ -10,6 +10,7 @@
 -/
 import Props.Tables
 import Proofs.EvalJson
+import Proofs.JsonValue
 namespace Jmes.Props
 open Jmes Jmes.Interp
 
@@ -60,5 +61,29 @@ theorem C16_raw_string_literal_is_json (s : Bytes) : litsJSON (N := N) (.literal
 example : NumLaws Int := inferInstance
 example : eval (N := Int) Generated.functionTable (.msList [.current, .literal (.str [0x78])]) (.num 3)
     = .ok (.arr [.num 3, .str [0x78]]) := by simp [eval, evalList]
+
+/-! ### serialised and read back as an equal value -/
+
+open Jmes.Json in
+/-- **`json.Unmarshal(json.Marshal(v)) = v`** for every JSON value whose numbers
+    are finite, whose strings and keys are well-formed UTF-8, whose objects have
+    ascending keys (as `Unmarshal` builds them) and whose depth is within
+    `encoding/json`'s limit — given the contract `NumCodec` of the number text
+    codec (float formatting/parsing: ported algorithms, validated by differential
+    testing, not verified).  With `C16_closure` (results are JSON values): a
+    successful Search result can be serialised and read back as an equal value. -/
+theorem C16_serialise_and_read_back (hN : NumCodec N) (v : Val N) (hv : okV v) (hd : depthV v ≤ maxDepth) :
+    decode (encode v) = some v :=
+  decode_encode hN v hv hd
+
+open Jmes.Json in
+/-- strings alone need no assumption: every well-formed UTF-8 string survives encode/decode -/
+theorem C16_string_round_trip (s : Bytes) (hv : ValidUtf8 s) :
+    (decode (encode (.str s : Val N)) : Option (Val N)) = some (.str s) := by
+  unfold decode
+  have := parse_str (N := N) s hv (encode (.str s : Val N)).length 0 []
+  simp only [List.append_nil] at this
+  rw [this]
+  rfl
 
 end Jmes.Props
